@@ -24,4 +24,6 @@ def run(tier, seed):
     # the whole signing run (seed -> signature) against RFC 8032 5.1.6 in the exact group model: checks/c08s.py
     from checks import c08s
     for t in c08s.sign_harnesses(rep, tier): t()
+    # sign -> verify / verify_strict / prehashed variants under the same key (and under another message / context)
+    for t in c08s.roundtrip_harnesses(rep, tier): t()
     return rep
